@@ -886,6 +886,159 @@ def check_pass(res, facts):
         rule.bad("ark_poly|serial_mixed_radix_fft|passes", "expected two pass loops (0..q_adicity and 0..two_adicity), found %d" % seen, fn.loc)
 
 
+# ---- R-PARFFT ---------------------------------------------------------------------------------------------
+
+def _expo(t, names):
+    """exponent of `base` in a term built from pow(base, e) / pow(pow(base, a), b): returns (base term, exponent polynomial)"""
+    from rules.c17 import to_q, NotPoly
+
+    def leaf(x):
+        if x in names:
+            return names[x]
+        return "<%s>" % show(x)
+    e = Q.const(1)
+    while isinstance(t, tuple) and t[0] == "pow":
+        e = e * to_q(t[2], leaf)
+        t = t[1]
+    return t, e
+
+
+def check_parfft(res, facts):
+    """parallel_fft splits the transform into num_cosets sub-transforms: coset k uses the polynomial
+    sum_c a[i + c*coset_size] * omega^(k*(i + c*coset_size)); visible in the code as omega_k = omega^k (per i),
+    omega_step = omega^(k*coset_size) (per c), sub-transform root omega^num_cosets, and the final interleave
+    a[i] = tmp[i mod num_cosets][i / num_cosets]."""
+    rule = res.rule("R-PARFFT", "parallel_fft: twiddles omega^k and omega^(k*coset_size), sub-root omega^num_cosets, gather index i + c*coset_size, interleave i -> (i mod cosets, i / cosets)", 3)
+    fns = {}
+    for f in facts.fns(unit="par", crate="ark_poly"):
+        if "domain::utils::parallel_fft" in f.id:
+            fns[f.id.split("parallel_fft", 1)[1]] = f
+    par, c0, c00, c1 = fns.get(""), fns.get("::{closure#0}"), fns.get("::{closure#0}::{closure#0}"), fns.get("::{closure#1}")
+    if not all((par, c0, c00, c1)):
+        rule.bad("ark_poly|parallel_fft", "anchor missing (found %s)" % sorted(fns))
+        return
+    key = "ark_poly|parallel_fft|split"
+    problems = []
+    fe = [t for _, t in par.calls() if t["f"].get("name") == "for_each"]
+    env0 = E(par, fe[0]["args"][1]) if fe else None
+    omega, m = A(2), C("len", A(1))
+    nt = ("bin", "Shl", 1, A(4))
+    cs = ("bin", "Div", m, nt)
+    if not (isinstance(env0, tuple) and env0[0] == "agg"):
+        problems.append("outer closure environment is %s" % (show(env0) if env0 else None))
+    else:
+        ops = env0[2]
+        idx = {}
+        for i, op in enumerate(ops):
+            if op == omega:
+                idx["omega"] = i
+            elif op == cs:
+                idx["cs"] = i
+            elif op == nt:
+                idx["nt"] = i
+            elif op == A(1):
+                idx["a"] = i
+            elif op == A(5):
+                idx["fft"] = i
+            elif isinstance(op, tuple) and op[0] == "pow" and op[1] == omega and op[2] == nt:
+                idx["new_omega"] = i
+            elif isinstance(op, tuple) and op[0] == "call" and op[1] == "k_adicity":
+                idx["adic"] = i
+
+        def sub(t):
+            """replace captured values (arg1.<i>) by the parent's expressions"""
+            if not isinstance(t, tuple) or not t:
+                return t
+            if t[0] == "arg" and t[1] == 1 and t[2] and isinstance(t[2][0], str) and t[2][0].isdigit() and int(t[2][0]) < len(ops):
+                base = ops[int(t[2][0])]
+                return base if len(t[2]) == 1 else ("proj", base, t[2][1:])
+            return tuple(sub(x) for x in t)
+        if len(idx) != 7:
+            problems.append("could not identify the captures omega, coset_size, num_threads, a, serial_fft, omega^num_cosets, k_adicity(2, coset_size) (found %s in %s)" % (sorted(idx), show(env0)[:300]))
+        else:
+            b, e = _expo(ops[idx["new_omega"]], {nt: "nt"})
+            if b != omega or not qeq(e, Q.var("nt")):
+                problems.append("sub-transform root is %s, expected omega^num_cosets" % show(ops[idx["new_omega"]]))
+            if ops[idx["adic"]] != C("k_adicity", 2, cs):
+                problems.append("sub-transform two-adicity is %s, expected k_adicity(2, coset_size)" % show(ops[idx["adic"]]))
+            U = lambda n: A(1, str(idx[n]))
+            k = A(2, "0")
+            names = {k: "k", U("cs"): "cs", U("nt"): "nt", cs: "cs", nt: "nt"}
+            pows = [sub(E(c0, {"c": place_parts(t["d"])[0]})) for _, t in c0.calls() if t["f"].get("name") == "pow"]
+            U_omega = omega
+            exps = []
+            for p_ in pows:
+                b, e = _expo(p_, names)
+                exps.append((b, e))
+            want_k = any(b == omega and qeq(e, Q.var("k")) for b, e in exps)
+            want_step = any(b == omega and qeq(e, Q.var("k") * Q.var("cs")) for b, e in exps)
+            if not want_k:
+                problems.append("no twiddle omega^k per coset (found %s)" % [show(p_) for p_ in pows])
+            if not want_step:
+                problems.append("the per-block twiddle is %s (exponent %s); coset k needs omega^(k*coset_size), which differs unless coset_size is a power of two" % ([show(p_)[:120] for p_ in pows if not (_expo(p_, names)[0] == omega and qeq(_expo(p_, names)[1], Q.var("k")))], [str(_expo(p_, names)[1]) for p_ in pows if not qeq(_expo(p_, names)[1], Q.var("k"))]))
+            # the indirect call to the serial transform receives (chunk, new_omega, new_two_adicity)
+            ind = [t for _, t in c0.calls() if t["f"].get("name") is None]
+            if not ind or [E(c0, a) for a in ind[0]["args"][1:]] != [U("new_omega"), U("adic")]:
+                problems.append("sub-transform is not called with (new_omega, new_two_adicity)")
+            # inner closure environment
+            fe0 = [t for _, t in c0.calls() if t["f"].get("name") == "for_each"]
+            env00 = E(c0, fe0[0]["args"][1]) if fe0 else None
+            if isinstance(env00, tuple) and env00[0] == "agg":
+                in_idx = {}
+                for i, op in enumerate(env00[2]):
+                    if op == U("nt"):
+                        in_idx["nt"] = i
+                    elif op == U("cs"):
+                        in_idx["cs"] = i
+                    elif op == U("a"):
+                        in_idx["a"] = i
+                    elif op == 1:
+                        in_idx["elt"] = i
+                    elif isinstance(op, tuple) and op[0] == "pow":
+                        b, e = _expo(op, names)
+                        if qeq(e, Q.var("k")):
+                            in_idx["omega_k"] = i
+                        else:
+                            in_idx["omega_step"] = i
+                if len(in_idx) != 6:
+                    problems.append("inner closure captures %s" % show(env00))
+                else:
+                    V = lambda n: A(1, str(in_idx[n]))
+                    loops = DF.sccs(c00)
+                    inloop = set().union(*loops) if loops else set()
+                    muls = [(bb, E(c00, t["args"][0]), E(c00, t["args"][1])) for bb, t in c00.calls() if t["f"].get("name") == "mul_assign"]
+                    step_in = [1 for bb, a_, b_ in muls if a_ == V("elt") and b_ == V("omega_step") and bb in inloop]
+                    k_out = [1 for bb, a_, b_ in muls if a_ == V("elt") and b_ == V("omega_k") and bb not in inloop]
+                    if len(step_in) != 1 or len(k_out) != 1:
+                        problems.append("elt is advanced by %s: expected omega_step inside the block loop and omega_k once per output coefficient" % [(show(a_), show(b_), bb in inloop) for bb, a_, b_ in muls if a_ == V("elt")])
+                    gathers = [a_ for bb, a_, b_ in muls if b_ == V("elt")]
+                    cvar = ("iter", 0, V("nt"))
+                    want_g = [("arg", 1, (str(in_idx["a"]), ("idx", ("bin", "Add", A(2, "0"), ("bin", "Mul", cvar, V("cs"))))))]
+                    alt_g = [("arg", 1, (str(in_idx["a"]), ("idx", ("bin", "Add", ("bin", "Mul", cvar, V("cs")), A(2, "0")))))]
+                    if gathers not in (want_g, alt_g):
+                        problems.append("gathered element is %s, expected a[i + c*coset_size]" % [show(g) for g in gathers])
+            else:
+                problems.append("inner closure environment not found")
+    (rule.bad if problems else rule.ok)(key, "; ".join(problems) if problems else "omega_k = omega^k, omega_step = omega^(k*coset_size), sub-root omega^num_cosets, gather a[i + c*coset_size], elt advanced by omega_step per block and omega_k per coefficient", par.loc)
+    key = "ark_poly|parallel_fft|interleave"
+    st_ = []
+    for bi, si, s_ in c1.stmts():
+        if "d" in s_:
+            l, projs = place_parts(s_["d"])
+            if projs and projs[0] == "*" and s_["r"]["k"] == "use":
+                st_.append(E(c1, s_["r"]["o"]))
+    want = C("index", C("index", A(1, "0"), ("bin", "Rem", A(2, "0"), A(1, "1"))), ("bin", "Div", A(2, "0"), A(1, "1")))
+    fe1 = [t for _, t in par.calls() if t["f"].get("name") == "for_each"]
+    env1 = E(par, fe1[1]["args"][1]) if len(fe1) > 1 else None
+    ok = st_ == [want] and isinstance(env1, tuple) and env1[0] == "agg" and len(env1[2]) == 2 and env1[2][1] == nt
+    (rule.ok if ok else rule.bad)(key, "a[i] = tmp[i % num_cosets][i / num_cosets]" if ok else "interleave is %s with captures %s" % ([show(x) for x in st_], show(env1) if env1 else None), c1.loc)
+    key = "ark_poly|parallel_fft|divisibility"
+    guards = [E(par, b["t"]["o"]) for b in par.bbs if b["t"]["k"] == "switch"]
+    ok = any(isinstance(g, tuple) and g[0] == "bin" and g[1] == "Ge" and g[2] == A(3) and g[3] == A(4) for g in guards)
+    rems = any(show(g).find("Rem") >= 0 for g in guards) or any(t["f"].get("name") == "assert_failed" for _, t in par.calls())
+    (rule.ok if ok and rems else rule.bad)(key, "asserts log_n >= log_cpus and len % num_threads == 0" if ok and rems else "missing assertion (guards %s)" % [show(g)[:60] for g in guards], par.loc)
+
+
 def run(ctx, res):
     units = ["ws", "par"]
     facts = ctx.facts(units)
@@ -899,6 +1052,7 @@ def run(ctx, res):
     check_root(res, facts)
     check_vanish(res, facts)
     check_pass(res, facts)
+    check_parfft(res, facts)
     return {
         "level": "other",
         "explanation": "Expression reconstruction over MIR (single-definition dataflow, `?`/borrow/cast transparent), control-flow reachability and symbolic evaluation of straight-line kernels, applied to the evaluation-domain code of ark-poly and FftField::get_root_of_unity: constructors derive every field from the right source, fail on the subgroup-size condition, accessors and the General wrapper forward correctly, forward/inverse transforms are wired to group_gen / group_gen_inv with coset scaling on the right arm and side, the butterfly kernels and the power-distribution loop bodies are proved as ring identities, the root-of-unity derivation performs (configured - requested) adicity many powerings, and the vanishing polynomial / element / iterator definitions match. That the butterfly schedule, bit-reversal, degree-aware duplication and mixed-radix passes compose to the DFT for every size and input length, and the Lagrange-coefficient loop, are NOT decided (index arithmetic over run-time sizes).",
